@@ -57,8 +57,9 @@ def body_wo_doc(f):
 class Expr:
     """carrier: 'O' (generic ops record O : ops A), 'R', 'Z', 'Q'"""
 
-    def __init__(self, env, carrier="O", benv=None, round6_identity=False):
+    def __init__(self, env, carrier="O", benv=None, round6_identity=False, divmap=None):
         self.env = dict(env); self.carrier = carrier; self.benv = dict(benv or {}); self.round6_identity = round6_identity
+        self.divmap = dict(divmap or {})   # `x / <rate expr>` is `x * <period>` in tick units (DESIGN 1.1)
 
     def lit(self, v):
         if isinstance(v, bool): raise Unsupported("bool literal in arithmetic")
@@ -99,6 +100,8 @@ class Expr:
         if isinstance(n, ast.UnaryOp) and isinstance(n.op, ast.USub):
             a = self.tr(n.operand)
             return f"(oopp O {a})" if self.carrier == "O" else f"(- {a})%{self.carrier}"
+        if isinstance(n, ast.BinOp) and isinstance(n.op, ast.Div) and ast.unparse(n.right) in self.divmap:
+            return self.bin("*", self.tr(n.left), self.divmap[ast.unparse(n.right)])
         if isinstance(n, ast.BinOp):
             op = {ast.Add: "+", ast.Sub: "-", ast.Mult: "*", ast.Div: "/"}.get(type(n.op))
             if op is None: raise Unsupported("operator " + ast.dump(n.op))
